@@ -46,7 +46,7 @@ From Atlas Require Sqlite.ConvergeTable.
 From Atlas Require Import Base.Bytes Diff.Schema Diff.DiffModel Diff.DiffSqlite
   Sqlite.PlanModel Sqlite.PlanProofs Sqlite.EngineModel Sqlite.InspectModel Sqlite.ConvergeDefs Sqlite.ConvergeStep
   Sqlite.Converge Sqlite.ConvergeSupported Sqlite.EngineRowsProofs Sqlite.ConvergeRows Sqlite.ConvergeParts Sqlite.ConvergeSyntactic
-  Sqlite.ConvergeFeature.
+  Sqlite.ConvergeFeature Sqlite.ConvergeExported Hcl.SpecModel Hcl.SpecProofs.
 Import ListNotations.
 
 (** ** the theorems *)
@@ -154,6 +154,48 @@ Theorem C01_plan_fk_bracket :
       p_reversible p = set_reversible body /\ p_transactional p = true.
 Proof. exact plan_fk_bracket. Qed.
 Print Assumptions C01_plan_fk_bracket.
+
+(** ROUND 5 -- the desired schema is what `atlas schema inspect` printed for ANOTHER database.
+    Such a document lists the index behind an inline UNIQUE constraint under its reserved name
+    sqlite_autoindex_<t>_<n> and without sqlite.IndexOrigin.  [normalizeIdxName] (sql/sqlite/migrate.go) renames
+    it to <table>_<columns> at three places -- diff.Normalize, diff.FindGeneratedIndex, state.addIndexes.
+    [nrm B] is [B] with that renaming done once; [stable_b B]: the renaming succeeds (column parts only) and
+    its results are not reserved names again (decidable).  For EVERY current schema [A], engine database [d]
+    and desired [B] with [stable_b B]: the differ + planner return for [B] literally the plan they return for
+    [nrm B], and the second diff judges [B] as it judges [nrm B] -- the three call sites agree. *)
+Theorem C01_normalizeIdxName_sites_agree :
+  forall (nm : str) (A B : xschema) (d : db),
+    stable_b B = true ->
+    diff_and_plan nm A (nrm B) = diff_and_plan nm A B /\ (synced nm d (nrm B) <-> synced nm d B).
+Proof. intros nm A B d S. split; [exact (diff_and_plan_nrm nm A B S)|exact (synced_nrm nm d B S)]. Qed.
+Print Assumptions C01_normalizeIdxName_sites_agree.
+
+(** hence convergence for desired schemas WITH reserved index names (which [supported] excludes):
+    [supported_exported d B] = [stable_b B && supported d (nrm B)] *)
+Theorem C01_converges_exported :
+  forall (nm : str) (d : db) (B : xschema),
+    supported_exported d B = true ->
+    exists p d', diff_and_plan nm (inspect d) B = Some p /\ exec_all d (plan_stmts p) = Ok d' /\ synced nm d' B.
+Proof. exact converges_exported. Qed.
+Print Assumptions C01_converges_exported.
+
+(** ... composed with C03's export lemma (C03_hcl_normal_form: for a well-formed inspected schema the HCL
+    round trip MarshalHCL -> EvalHCL succeeds and returns [map norm_x]: defaults re-read, parts renumbered,
+    index origin dropped): export database d1, apply the document unedited to database d2.
+    FULL STATEMENT wanted: for all d1, d2 of the feature set.  PROVED: for all d1 with a well-formed inspected
+    schema and all d2 with [supported_exported d2 (map norm_x (inspect d1))] -- a decidable condition on the pair;
+    it holds when d2 is empty, lacks the table, lacks only the UNIQUE constraint, or holds it as the index
+    <t>_<cols> an earlier apply created (Examples below).  MISSING: a d2 that itself has inline UNIQUE
+    constraints (header, item (2): the invariant of the proof does not carry them; the stage `exported` covers
+    them against the model and the real engine), and deriving the condition from d1's catalogue alone. *)
+Theorem C01_converges_from_exported_hcl :
+  forall (nm : str) (d1 d2 : db),
+    schema_wf (inspect d1) ->
+    supported_exported d2 (map norm_x (inspect d1)) = true ->
+    exists B p d', hcl_roundtrip (inspect d1) = ROk B /\
+      diff_and_plan nm (inspect d2) B = Some p /\ exec_all d2 (plan_stmts p) = Ok d' /\ synced nm d' B.
+Proof. exact converges_from_exported_hcl. Qed.
+Print Assumptions C01_converges_from_exported_hcl.
 
 (** ** witnesses *)
 Definition nm : str := [109]%N.
@@ -371,3 +413,50 @@ Proof.
   split; vm_compute; reflexivity.
 Qed.
 Print Assumptions C01_converges_refuted_new_table_clash.
+
+(** *** round 5: the exported schema of users(id integer NOT NULL PRIMARY KEY, email text NULL UNIQUE) *)
+Definition n_users : str := [117;115;101;114;115]%N.
+Definition n_email : str := [101;109;97;105;108]%N.
+Definition ex_d1 : db :=
+  mkDB [mkCT (mkX (mkTable n_users false false [col n_id T_integer 2 false; col n_email T_text 3 true]
+                     (Some (pk_of [cpart 1 n_id false])) [] [] []) []) [[n_email]] []] false false.
+Definition ex_insp : xschema := Eval vm_compute in inspect ex_d1.
+Example C01_ex_insp : inspect ex_d1 = ex_insp.
+Proof. vm_compute. reflexivity. Qed.
+Definition ex_hcl : xschema := Eval vm_compute in map norm_x ex_insp.
+Example C01_ex_hcl : map norm_x (inspect ex_d1) = ex_hcl.
+Proof. vm_compute. reflexivity. Qed.
+(** the export carries the reserved name, no origin; the renaming gives users_email *)
+Example C01_ex_exported_shape :
+  map (fun x => map (fun i => (i_name i, i_unique i, i_origin i)) (t_idx (x_t x))) ex_hcl
+    = [[(SQLITE_AUTOINDEX ++ [95]%N ++ n_users ++ [95;49]%N, true, None)]] /\
+  map (fun x => map i_name (t_idx (x_t x))) (nrm ex_hcl) = [[n_users ++ [95]%N ++ n_email]] /\
+  stable_b ex_hcl = true /\ supported empty_db ex_hcl = false.
+Proof. vm_compute. repeat split; reflexivity. Qed.
+(** d2 = nothing / the table without the constraint / the table with the index an earlier apply made *)
+Definition ex_d2_plain : db := Eval vm_compute in
+  run empty_db [tbl n_users [col n_id T_integer 2 false; col n_email T_text 3 true] (Some (pk_of [cpart 1 n_id false])) [] [] []].
+Definition ex_d2_applied : db := Eval vm_compute in run empty_db ex_hcl.
+Example C01_ex_exported_supported :
+  supported_exported empty_db ex_hcl && supported_exported ex_d2_plain ex_hcl && supported_exported ex_d2_applied ex_hcl = true.
+Proof. vm_compute. reflexivity. Qed.
+Example C01_ex_exported_wf : schema_wf ex_insp.
+Proof.
+  split.
+  - constructor; [|constructor]. split; [|split; [|split]].
+    + constructor; [exact I|]. constructor; [exact I|constructor].
+    + constructor; [exists n_id; split; [reflexivity|vm_compute; reflexivity]|constructor].
+    + constructor; [|constructor]. split; [discriminate|]. constructor; [vm_compute; reflexivity|constructor].
+    + constructor.
+  - vm_compute. constructor; [intros []|constructor].
+Qed.
+(** the three plans: CREATE TABLE + CREATE UNIQUE INDEX users_email; CREATE UNIQUE INDEX users_email; nothing *)
+Example C01_ex_exported_plans :
+  (match diff_and_plan nm (inspect empty_db) ex_hcl with Some p => length (p_changes p) | None => 99 end,
+   match diff_and_plan nm (inspect ex_d2_plain) ex_hcl with Some p => length (p_changes p) | None => 99 end,
+   match diff_and_plan nm (inspect ex_d2_applied) ex_hcl with Some p => length (p_changes p) | None => 99 end,
+   converged ex_d2_applied ex_hcl, converged (run ex_d2_plain ex_hcl) ex_hcl,
+   (* a d2 that has the same inline constraint: outside the theorem, converges by computation (nothing to do) *)
+   converged ex_d1 ex_hcl)
+  = (2, 1, 0, true, true, true).
+Proof. vm_compute. reflexivity. Qed.
